@@ -87,12 +87,13 @@ fn props_p(a: u32, b: &str) -> String {
     log("props");
     format!("{a}{b}")
 }
-#[fastrace::trace(properties = { "lit": "x y", "fmt": "{a}-{b}", "esc": "{{a}}", "mixed": "{{{a}}}" })]
+#[fastrace::trace(properties = { "lit": "x y", "fmt": "{a}-{b}", "esc": "{{a}}", "mixed": "{{{a}}}", "spec": "{a:03}|{b:?}|{a:#x}", "trail": "{a}}}" })]
 fn props_t(a: u32, b: &str) -> String {
     here!();
     log("props");
     format!("{a}{b}")
 }
+twin!(#[fastrace::trace(properties = { "close": "}}", "mid": "a}}b", "open": "{{", "both": "}}{{", "json": "{{\"x\": 1}}", "tail": "x}}", "empty": "" })] fn escapes_p / escapes_t (a: u32) -> u32 { here!(); a });
 twin!(#[fastrace::trace(name = "n2", properties = { "only": "literal" })] fn props_lit_p / props_lit_t (a: u32) -> u32 { here!(); a });
 twin!(#[fastrace::trace()] fn early_p / early_t (a: u32) -> u32 { here!(); if a == 0 { log("early"); return 99; } log("late"); a });
 twin!(#[fastrace::trace()] fn question_p / question_t (a: u32) -> Result<u32, String> { here!(); let v = if a == 1 { Err(format!("bad{a}")) } else { Ok(a) }?; log("after?"); Ok(v + 1) });
@@ -358,9 +359,32 @@ fn cases() -> Vec<Case> {
         c,
         "props",
         None,
-        |a: u32| vec![("lit".into(), "x y".into()), ("fmt".into(), format!("{a}-s{a}")), ("esc".into(), "{a}".into()), ("mixed".into(), format!("{{{a}}}"))],
+        |a: u32| vec![
+            ("lit".into(), "x y".into()),
+            ("fmt".into(), format!("{a}-s{a}")),
+            ("esc".into(), "{a}".into()),
+            ("mixed".into(), format!("{{{a}}}")),
+            ("spec".into(), format!("{a:03}|{:?}|{a:#x}", format!("s{a}"))),
+            ("trail".into(), format!("{a}}}"))
+        ],
         |a| props_p(a, &format!("s{a}")),
         props_t(a, &format!("s{a}"))
+    );
+    sync_case!(
+        c,
+        "escapes",
+        None,
+        |_| vec![
+            ("close".to_string(), "}".to_string()),
+            ("mid".to_string(), "a}b".to_string()),
+            ("open".to_string(), "{".to_string()),
+            ("both".to_string(), "}{".to_string()),
+            ("json".to_string(), "{\"x\": 1}".to_string()),
+            ("tail".to_string(), "x}".to_string()),
+            ("empty".to_string(), String::new())
+        ],
+        |a| escapes_p(a),
+        escapes_t(a)
     );
     sync_case!(c, "props_lit", Some("n2"), |_| vec![("only".to_string(), "literal".to_string())], |a| props_lit_p(a), props_lit_t(a));
     sync_case!(c, "early", None, no_props, |a| early_p(a), early_t(a));
